@@ -5,6 +5,7 @@ import session_common as SC
 
 def tasks(tier, seed):
     ts = SC.session_tasks(tier, ['CHECK_C04'], 'c04', ('C04:',))
+    ts += SC.big_session_tasks(tier, 'c04', ('C04:',))
     meta = dict(
         level='model_checking',
         explanation='The real File write session (three threads, cooperative scheduler) runs symbolically; the finished in-memory '
